@@ -260,7 +260,7 @@ Definition parse_int (l : bytes) : option Z :=
 
 Definition rval_of (ty : N) (e : bytes) : option rval :=
   if is_int_ty ty then match parse_int e with Some z => Some (RInt z) | None => None end
-  else if is_char_ty ty then match e with [c] => Some (RChar c) | _ => None end
+  else if is_char_ty ty then Some (RChar (match e with c :: _ => c | [] => 0 end))   (* CharRealm(from[0]) *)
   else if is_string_ty ty then Some (RStr e)
   else None.
 
@@ -437,6 +437,11 @@ Definition wf_schema (s : schema) : bool :=
                               | Some f => existsb (fun e => key_eqb (ev_enum e) (md_type m)) (fs_vals f)
                               | None => false end) (s_msgs s)
       && nodup_keys (map fst (s_comps s))
+      (* enumerations of char-typed fields are single 7-bit characters *)
+      && forallb (fun f => match type_code (fd_type f) with
+                           | Some ty => negb (is_char_ty ty)
+                                        || forallb (fun e => match ev_enum e with [c] => c <? 128 | _ => false end) (fd_vals f)
+                           | None => false end) (s_fields s)
       (* the value constants `Name_description` generated for one field are distinct identifiers *)
       && forallb (fun f => nodup_keys (map (fun e => sanitize (match ev_desc e with [] => ev_enum e | d => d end))
                                            (fd_vals f))) (s_fields s)
